@@ -228,9 +228,12 @@ impl DbInner {
 		}
 		log::debug!(target: "parity-db", "Opened db {:?}, metadata={:?}", options, metadata);
 		let mut options = options.clone();
-		if options.salt.is_none() {
-			options.salt = Some(metadata.salt);
-		}
+		// The columns hash their keys with the stored salt (`metadata.salt`). The handle must
+		// use the same value: `options.salt` only takes effect when the database is created.
+		// Keeping a different caller-supplied salt here made committed values unreadable and
+		// made `add_column` / `drop_last_column` / `reset_column` write the wrong salt to the
+		// metadata file.
+		options.salt = Some(metadata.salt);
 
 		Ok(DbInner {
 			columns,
